@@ -107,6 +107,8 @@ type Gen struct {
 	sumlenWanted map[string]bool
 	// at_call(sel, expr) snapshots: ghost name -> (selector, expression)
 	snaps map[string]snapSpec
+	// inferred loop facts (reported in the evidence)
+	inferred []string
 	exportWanted map[string]bool
 	inlineStack []*ssa.Function
 	inlinePrefix string // unique per inlined call instance (value names must not collide with the caller's)
@@ -634,8 +636,12 @@ func (g *Gen) findLoops() error {
 	})
 	for i, l := range g.loops {
 		l.idx = i
-		if g.con != nil {
+		if g.con != nil && len(g.inlineStack) == 0 {
 			l.spec = g.con.Loops[i]
+		}
+		if len(g.inlineStack) > 0 {
+			// a loop of an inlined helper: no contract clause can refer to it
+			l.idx = 1000*len(g.inlineStack) + i
 		}
 		for _, in := range l.header.Instrs {
 			if p, ok := in.(*ssa.Phi); ok {
